@@ -1007,12 +1007,17 @@ func (agg *aggregate) Process(ctx context.Context, man gdbi.Manager, in gdbi.InP
 					}
 				}
 
-				count := 0
-				for term, tcount := range fieldTermCounts {
+				//most frequent terms first, so that `size` keeps the most frequent ones
+				terms := make([]interface{}, 0, len(fieldTermCounts))
+				for term := range fieldTermCounts {
+					terms = append(terms, term)
+				}
+				sort.SliceStable(terms, func(i, j int) bool {
+					return fieldTermCounts[terms[i]] > fieldTermCounts[terms[j]]
+				})
+				for count, term := range terms {
 					if size <= 0 || count < int(size) {
-						//sTerm, _ := structpb.NewValue(term)
-						//fmt.Printf("Term: %s %s %d\n", a.Name, sTerm, tcount)
-						out <- &gdbi.BaseTraveler{Aggregation: &gdbi.Aggregate{Name: a.Name, Key: term, Value: float64(tcount)}}
+						out <- &gdbi.BaseTraveler{Aggregation: &gdbi.Aggregate{Name: a.Name, Key: term, Value: float64(fieldTermCounts[term])}}
 					}
 				}
 				return outErr
